@@ -1,6 +1,7 @@
 import Driver.Util
 import JadeModel.Model.Cluster
 import JadeModel.Model.ClusterCrash
+import JadeModel.Model.ClusterLive
 
 namespace Jade.Driver
 open Lean Jade.Cluster Jade.Gen.Cluster
@@ -53,6 +54,16 @@ def parseClusterTOp (j : Json) : R TOp := do
     pure (.crash (← parseClusterOp (← fld j "op")) (← nat j "after") (← bool j "lockGone") torn)
   else pure (.api (← parseClusterOp j))
 
+/-- `{"k": "failWrite", "op": <api op>, "after": k}`: the `(k+1)`-th file write of the call raises OSError, the handle lives on;
+    `{"k": "stallBegin", "h": slot, "op": <api op>, "after": k}` / `{"k": "stallEnd", "h": slot}`: the call parks right before its
+    `(k+1)`-th file write, inside its lock section, until `stallEnd` -/
+def parseClusterFOp (j : Json) : R FOp := do
+  let k ← str j "k"
+  if k == "failWrite" then pure (.failWrite (← parseClusterOp (← fld j "op")) (← nat j "after"))
+  else if k == "stallBegin" then pure (.stallBegin (← parseClusterOp (← fld j "op")) (← nat j "after"))
+  else if k == "stallEnd" then pure .stallEnd
+  else pure (.base (← parseClusterTOp j))
+
 def jres : Res → Json
   | .ok => jstr "ok"
   | .bool b => jobj [("bool", jbool b)]
@@ -60,6 +71,13 @@ def jres : Res → Json
   | .attrErr => jobj [("error", jstr "attributeError")]
   | .noHandle => jstr "noHandle"
   | .disabled => jstr "disabled"
+
+def jfres : FRes → Json
+  | .res r => jres r
+  | .killed => jstr "killed"
+  | .stalled => jstr "stalled"
+  | .busy => jstr "busy"
+  | .noStall => jstr "noStall"
 
 def jjob (v : JobView) : Json :=
   jobj [("state", jstr v.state.value), ("blockedBy", jnats (sortNats v.blockedBy)), ("cancel", jbool v.cancelFlag)]
@@ -94,17 +112,17 @@ def clusterOps : List (String × (Json → R Json)) := [
     let host ← nat j "host"
     let spec ← (← arr j "jobs").toList.mapM fun p => do pure ((← natList p "blockers"), (← bool p "cancel"))
     let brk ← bool j "breakStale"
-    let ops ← (← arr j "ops").toList.mapM parseClusterTOp
-    let mut s := TSys.ofSys (create host spec brk)
-    let init := jtdisk s
+    let ops ← (← arr j "ops").toList.mapM parseClusterFOp
+    let mut s := FSys.ofT (TSys.ofSys (create host spec brk))
+    let init := jtdisk s.t
     let mut out : List Json := []
     for op in ops do
-      let before := s.s.disk
-      let (s', r) := stepT s op
+      let before := s.t.s.disk
+      let (s', r) := stepF s op
       s := s'
-      let base := [("res", match r with | some r => jres r | none => jstr "killed"), ("disk", jtdisk s)]
+      let base := [("res", jfres r), ("disk", jtdisk s.t)]
       let extra := match op with
-        | .api .read => [("summary", jsummary before)]
+        | .base (.api .read) => [("summary", jsummary before)]
         | _ => []
       out := out ++ [jobj (base ++ extra)]
     pure <| jobj [("init", init), ("steps", jarr out)])
